@@ -253,7 +253,12 @@ class HillClimbSearch(StructureEstimator):
             )
 
         if isinstance(scoring_method, str):
-            score = supported_methods[scoring_method.lower()](data=self.data)
+            if scoring_method.lower() in ("aic-g", "bic-g"):
+                score = supported_methods[scoring_method.lower()](data=self.data)
+            else:
+                score = supported_methods[scoring_method.lower()](
+                    data=self.data, state_names=self.state_names
+                )
         else:
             score = scoring_method
 
